@@ -6,7 +6,7 @@
    Everything else (Dict, Relation, GenericSet, UnionSet, tuples) is backed by the
    persistent frozen library (assumed immutable, trusted base) and is covered by
    the correspondence run only. *)
-From Arrai Require Import Base.Val Sys.Heap Proofs.HeapP.
+From Arrai Require Import Base.Val Sys.Heap Proofs.HeapP Rep.SeqRep Proofs.HeapRefP.
 
 Theorem C03_values_are_immutable :
   forall hist1 hist2 i v,
@@ -37,3 +37,22 @@ Example C03_probe :
   dens (run false [OLit [97; 98; 99] 1; OWith 0 3 100; OWith 0 3 101])
   = [(0, [97; 98; 99]); (0, [97; 98; 99; 100]); (0, [97; 98; 99; 101])].
 Proof. vm_compute. reflexivity. Qed.
+
+(* What a derived value denotes does not depend on whether its storage is shared or copied: every with / without
+   step of the heap model yields exactly the cell-level function of its parent's cells - the functions whose
+   refinement to the mathematical with / without is property C01 (Rep/SeqRep.v). *)
+Theorem C03_without_step_denotes_without :
+  forall b h vals p v at_ char, nth_error vals p = Some v ->
+    let st' := step b (h, vals) (OWithout p at_ char) in
+    exists v', snd st' = vals ++ [v'] /\
+      den (fst st') v' = (snd (without_cells (cells h v) (s_off v) at_ char), fst (without_cells (cells h v) (s_off v) at_ char)).
+Proof. exact step_without_denotes. Qed.
+Print Assumptions C03_without_step_denotes_without.
+
+Theorem C03_with_step_denotes_with :
+  forall h vals p v at_ char, nth_error vals p = Some v -> cells h v <> [] ->
+    let st' := step false (h, vals) (OWith p at_ char) in
+    exists v', snd st' = vals ++ [v'] /\
+      den (fst st') v' = (snd (with_cells (cells h v) (s_off v) at_ char), fst (with_cells (cells h v) (s_off v) at_ char)).
+Proof. exact step_with_denotes. Qed.
+Print Assumptions C03_with_step_denotes_with.
